@@ -12,10 +12,10 @@ MOD = S("models-corr", "corr")
 WIND = S("wind-corr", "corr")
 
 PROPS = {
- "C01": {"level": "other", "lean_module": "ClipVerif.Props.C01", "stages": [WIND, GEN, S("c01-search")]},
- "C02": {"level": "other", "lean_module": "ClipVerif.Props.C02", "stages": [WIND, GEN, S("c02-search")]},
+ "C01": {"level": "other", "lean_module": "ClipVerif.Props.C01", "stages": [WIND, GEN, MOD, S("c01-search")]},
+ "C02": {"level": "other", "lean_module": "ClipVerif.Props.C02", "stages": [WIND, GEN, MOD, S("c02-search")]},
  "C03": {"level": "other", "lean_module": "ClipVerif.Props.C03", "stages": [MOD, S("c03-search")]},
- "C04": {"level": "other", "lean_module": "ClipVerif.Props.C04", "stages": [GEN, S("c04-search")]},
+ "C04": {"level": "other", "lean_module": "ClipVerif.Props.C04", "stages": [GEN, MOD, S("c04-search")]},
  "C05": {"level": "other", "lean_module": "ClipVerif.Props.C05", "stages": [MOD, S("c05-search")]},
  "C06": {"level": "other", "lean_module": "ClipVerif.Props.C06", "stages": [GEN, S("c06-search")]},
  "C07": {"level": "other", "lean_module": "ClipVerif.Props.C07", "stages": [GEN, S("c07-search")]},
